@@ -76,7 +76,7 @@ WFProtMapItem(m) == /\ m.k = "map"
                     /\ ValidParams(m.ps, TRUE)
 WFProt(x) ==
   /\ IsBstr(x)
-  /\ x.b # <<>> => LET p == ParseAll(x.b) IN p.ok /\ WFProtMapItem(p.item)
+  /\ (x.b # <<>> => (LET p == ParseAll(x.b) IN p.ok /\ WFProtMapItem(p.item)))
 \* unprotected: definite map, no tags anywhere in the envelope
 WFUnprot(x) ==
   /\ x.k = "map"
